@@ -77,6 +77,34 @@ def gen(rng, tier):
             yield {"k": "merge", "a": M([]), "optsA": [], "steps": [{"b": a, "opts": o}], "_tag": "merge/empty-left", "_sig": "el|%s" % pol, "_nt": False}
 
 
+    # a config merged into itself (same object): nothing changes under the default and the replace policies; append and
+    # prepend double the lists
+    for pol in POLICIES:
+        for _ in range(12 if tier == "quick" else 80):
+            a = rand_dict(rng, 1 + rng.below(3))
+            o = [opt(pol)] if pol else []
+            steps = [{"self": True, "b": None, "opts": o}]
+            if rng.chance(0.3):
+                b = mutate_tree(rng, a, 2)
+                if isinstance(b, dict) and ("m" in b or "a" in b):
+                    steps.append({"b": b, "opts": []})
+            yield {"k": "merge", "a": a, "optsA": [], "steps": steps, "_tag": "merge/self", "_sig": "self|%s|%s" % (pol, shape_of(a)), "_nt": True}
+
+
+def fix_candidate(cand, base):
+    """shrinking: every merge source stays a dictionary, a list or the config itself"""
+    def container(v):
+        return isinstance(v, dict) and any(k in v for k in ("m", "a", "st", "c", "cm"))
+    if not container(cand.get("a")) or not isinstance(cand.get("steps"), list):
+        return None
+    for st in cand["steps"]:
+        if not isinstance(st, dict) or not isinstance(st.get("opts"), list):
+            return None
+        if not st.get("self") and not container(st.get("b")):
+            return None
+    return cand
+
+
 def nontrivial(case, impl):
     return bool(case.get("_nt"))
 
